@@ -682,7 +682,8 @@ def f7_prepared_schema(check, prog):
         return intern(('cmp', 'is', ('attr', U, attr), NONE))
     want = {
         'wavelength': [(isnone('illum_wavelen'), True)],
-        'medium refractive index': [(isnone('medium_index'), True)],
+        'medium refractive index': [(isnone('illum_wavelen'), False),
+                                    (isnone('medium_index'), True)],
     }
     got = {}
     for o in res.raises:
@@ -694,6 +695,9 @@ def f7_prepared_schema(check, prog):
         got[nm] = norm_cond(o.cond)
     ok = len(res.raises) == 3 and all(got.get(k) == w for k, w in want.items())
     pc = got.get('polarization')
+    ok = ok and pc is not None and pc[:2] == [(isnone('illum_wavelen'), False),
+                                             (isnone('medium_index'), False)]
+    pc = pc[2:] if pc else pc
     ok = ok and pc is not None and len(pc) == 1 and pc[0][1] is True and \
         pc[0][0][0] == 'bool' and pc[0][0][1] == 'and' and \
         set(pc[0][0][2]) == {intern(('cmp', 'is not', P[3], FALSE)),
